@@ -67,8 +67,9 @@ func EncodeLatin1(s string) []byte {
 type LRec struct {
 	Vals  []string
 	Items [][]string
-	Dup   int // 1+index of a field whose element is emitted twice (xml/json only); 0 = none
-	Short int // number of trailing fields left out of the row (csv / csv2 single-row records only)
+	Dup   int  // 1+index of a field whose element is emitted twice (xml/json only); 0 = none
+	Short int  // number of trailing fields left out of the row (csv / csv2 single-row records only)
+	Bad   bool // the row is malformed for the old csv reader (bare quote in an unquoted field: a continuable reader error)
 }
 
 // Shape is the logical shape shared by the records of a world.
